@@ -519,8 +519,8 @@ func ruleEnvParser(c *Ctx, rx *PkgIndex, rule string) {
 	// … which is the text after the pair's first "=": second result of strings.Cut(pair, "="), or pair[i+1:] with
 	// i := strings.Index/IndexByte(pair, "=")
 	okIn := false
-	found := map[types.Object]bool{}    // "an '=' was found" flags (Cut's third result)
-	sepIdx := map[types.Object]bool{}   // index of the first '=' (−1 when there is none)
+	found := map[types.Object]bool{}  // "an '=' was found" flags (Cut's third result)
+	sepIdx := map[types.Object]bool{} // index of the first '=' (−1 when there is none)
 	isEq := func(e ast.Expr) bool {
 		if s, ok := constString(info, e); ok && s == "=" {
 			return true
